@@ -19,7 +19,7 @@ import (
 
 // events: fan-out of backend events to registered clients.
 // op:   L:<clients> then actions
-//         c<i> connect client i | r<i>:<event types> REGISTER | d<i> disconnect
+//         c<i>[:3] connect client i (with protocol v3) | r<i>:<event types> REGISTER | d<i> disconnect
 //         s<k>:<target>  backend emits schema-change event k | t topology event | u status event
 //         x              the control connection is dropped (the proxy fails over / reconnects)
 //         y<k>:<target>  the control connection is dropped, and the backend emits schema-change event k on the new
@@ -149,11 +149,17 @@ func runEvents(op string) (out string) {
 	for _, a := range acts {
 		switch a[0] {
 		case 'c':
-			i, _ := strconv.Atoi(a[1:])
+			// c<i> or c<i>:<protocol version>
+			cp := strings.SplitN(a[1:], ":", 2)
+			i, _ := strconv.Atoi(cp[0])
 			if i >= nclients || clients[i] != nil {
 				continue
 			}
-			c, err := env.Dial(primitive.ProtocolVersion4, "")
+			cv := primitive.ProtocolVersion4
+			if len(cp) > 1 && cp[1] == "3" {
+				cv = primitive.ProtocolVersion3
+			}
+			c, err := env.Dial(cv, "")
 			if err != nil {
 				return "dial-error"
 			}
@@ -271,6 +277,7 @@ func genEvents(e *emitter, r *rng.R, n int, tier string) {
 		"L:2 c0 r0:SCHEMA_CHANGE r0:SCHEMA_CHANGE s1:Y",
 		"L:2 c0 c1 r0:SCHEMA_CHANGE y1:K s2:T",
 		"L:2 c0 c1 r0:SCHEMA_CHANGE r1:SCHEMA_CHANGE s1:T s1:T s2:K s1:T",
+		"L:2 c0:3 c1 r0:SCHEMA_CHANGE r1:SCHEMA_CHANGE s1:F s2:A s3:K s4:T s5:Y s6:F",
 		"L:1 c0 r0:SCHEMA_CHANGE s1:K y2:T y3:A s4:F",
 	}
 	defer func() { e.emitAll(ops, 8) }()
@@ -284,7 +291,11 @@ func genEvents(e *emitter, r *rng.R, n int, tier string) {
 			ci := rr.Intn(l)
 			switch c := rr.Intn(20); {
 			case c < 4:
-				parts = append(parts, fmt.Sprintf("c%d", ci))
+				if rr.Intn(3) == 0 {
+					parts = append(parts, fmt.Sprintf("c%d:3", ci))
+				} else {
+					parts = append(parts, fmt.Sprintf("c%d", ci))
+				}
 			case c < 8:
 				parts = append(parts, fmt.Sprintf("r%d:%s", ci, rr.Pick(types)))
 			case c < 10:
